@@ -13,6 +13,7 @@ max(limit, 1) ranges; never a header or valid byte; the string is exactly the st
 observed behaviourally: feeding the payload of exactly those ranges to the write callback makes exactly the covered
 chunks valid and changes nothing else.
 """
+PROMOTE = True   # quick runs the former thorough bound (seconds); thorough goes deeper where a deeper bound is defined (ctx.deep)
 import itertools
 import core, zckref, universe
 
